@@ -1,6 +1,6 @@
 """C02 — the timestep handed to a process equals the simulated interval it covers."""
 from harness import sched_common as sc
-from harness.sched_prop import install
+from harness.sched_prop import install, zero_length_corpus
 
 
 def view(case, events, info):
@@ -73,7 +73,8 @@ def oracle(case, impl):
 
 
 install(globals(), 'C02', view, oracle,
-        gen_opts=dict(steps_ok=False, emit_variants=False, p_quiet=0.2, ts_terms=True),
+        gen_opts=dict(steps_ok=False, emit_variants=False, p_quiet=0.2, ts_terms=True, zero_calls=True),
+        extra_corpus=zero_length_corpus(),
         budget={'quick': 250, 'thorough': 6000},
         rule='scheduler scenarios as for C01, weighted to timesteps that do not divide the run length and to '
              'chunked run_for sequences ending with forced completion. The probe records, at every next_update, '
@@ -87,7 +88,7 @@ install(globals(), 'C02', view, oracle,
         level_note='Trusted: Lean kernel + standard axioms; scheduler model ~ Engine.run_for via trace '
                    'correspondence; float interval lengths are compared up to 1e-9 of a tick.',
         technique='Lean 4 invariant proof over the scheduler loop + event-trace correspondence',
-        required=['timestep_is_interval', 'timestep_requested_or_remainder', 'drained_after_update', 'noPending_after_runFor',
+        required=['update_zero_is_noop', 'timestep_is_interval', 'timestep_requested_or_remainder', 'drained_after_update', 'noPending_after_runFor',
                   'intervals_contiguous', 'timesteps_sum_to_elapsed', 'timesteps_sum_after_update'])
 
 
